@@ -749,4 +749,264 @@ example :
     (mainChain (run cfg0 (St.init g0) ops)).map (·.id) = [5, 2, 1, 0] := by
   refine ⟨by decide, by decide, by decide, by decide⟩
 
+/-! ## round 6: the activation epoch of the hardfork-conditional rules (rfc0044)
+
+`Consensus::rfc0044_active(parent.epoch().number())` decides, per block, whether the chain-root
+extension is required (`BlockExtensionVerifier`). The model no longer takes that verdict as a
+configuration constant: `contextualCheck` derives it from the epoch number of the PARENT header
+(`Cx.parentEpochNumber`, which `cxOf` reads from the stored parent) and the activation epoch of the
+consensus (`Cfg.rfc0044Epoch`, selected by the consensus id from the regenerated constants). The
+theorems below hold for EVERY activation epoch and every parent epoch — before, at and after the
+boundary. -/
+
+/-- `rfc0044_active(target)` iff `target` is at or past the activation epoch (`>=`) -/
+theorem rfc0044_active_iff (cfg : Cfg) (t : Nat) : cfg.rfc0044Active t = true ↔ cfg.rfc0044Epoch ≤ t := by
+  simp [Cfg.rfc0044Active]
+
+/-- the activation boundary: the epoch just below the activation epoch is the last one without the
+rule, the activation epoch itself is the first with it -/
+theorem rfc0044_boundary (cfg : Cfg) (e : Nat) (h : cfg.rfc0044Epoch = e + 1) :
+    cfg.rfc0044Active e = false ∧ cfg.rfc0044Active (e + 1) = true := by
+  simp [Cfg.rfc0044Active, h]
+
+/-- activation is permanent: once active, active for every later epoch -/
+theorem rfc0044_active_mono (cfg : Cfg) {t t' : Nat} (h : t ≤ t') (ha : cfg.rfc0044Active t = true) :
+    cfg.rfc0044Active t' = true := by
+  simp only [Cfg.rfc0044Active, decide_eq_true_eq] at *; omega
+
+/-- the rule list of `BlockExtensionVerifier` for a child of a block of epoch `pe`, with the
+activation epoch explicit (no `mmr_active` flag) -/
+def extensionRulesAt (cfg : Cfg) (pe : Nat) (b : Blk) : List (Err × Bool) :=
+  match b.extraFields with
+  | 0 => [ (.noExtension, decide (pe < cfg.rfc0044Epoch)), (.invalidExtraHash, b.extraHashOk) ]
+  | 1 =>
+    match b.extLen with
+    | none => [ (.unknownFields, false) ]
+    | some len =>
+      [ (.emptyExtension, len != 0),
+        (.extensionTooLong, decide (len ≤ cfg.extMax)),
+        (.invalidExtension, decide (pe < cfg.rfc0044Epoch) || decide (cfg.extMinRoot ≤ len)),
+        (.invalidChainRoot, decide (pe < cfg.rfc0044Epoch) || b.rootOk),
+        (.invalidExtraHash, b.extraHashOk) ]
+  | _ => [ (.unknownFields, false) ]
+
+/-- **For every activation epoch and every parent epoch, `BlockExtensionVerifier` reports the first
+failing rule of the explicit list** (and accepts iff all hold): before activation the `NoBlockExtension`,
+`InvalidBlockExtension` and `InvalidChainRoot` rules are vacuous, from the activation epoch on they
+bind; the count / empty / length / `extra_hash` rules bind at every epoch. -/
+theorem extension_check_every_activation_epoch (cfg : Cfg) (pe : Nat) (b : Blk) :
+    extensionCheck (cfg.forParentEpoch pe) b = firstFail (extensionRulesAt cfg pe b) := by
+  rw [extensionCheck_eq]
+  unfold extensionRules extensionRulesAt
+  have hm : (cfg.forParentEpoch pe).mmrActive = decide (cfg.rfc0044Epoch ≤ pe) := rfl
+  have hx : (cfg.forParentEpoch pe).extMax = cfg.extMax := rfl
+  have hr : (cfg.forParentEpoch pe).extMinRoot = cfg.extMinRoot := rfl
+  have hn : (!decide (cfg.rfc0044Epoch ≤ pe)) = decide (pe < cfg.rfc0044Epoch) := by
+    by_cases h : cfg.rfc0044Epoch ≤ pe
+    · simp [h]
+    · simp [h]; omega
+  rw [hm, hx, hr, hn]
+  rcases b.extraFields with _ | _ | n
+  · rfl
+  · cases b.extLen <;> rfl
+  · rfl
+
+/-- **Before the activation epoch** (`parent epoch < rfc0044 epoch`) the extension verifier accepts
+iff the block has no extension field, or one of 1 ..= 96 bytes (content free), and the header's
+`extra_hash` commits to the uncles and the extension. -/
+theorem extension_accept_before_activation_iff (cfg : Cfg) (pe : Nat) (b : Blk) (h : pe < cfg.rfc0044Epoch) :
+    extensionCheck (cfg.forParentEpoch pe) b = none ↔
+      (b.extraFields = 0 ∨ (b.extraFields = 1 ∧ ∃ len, b.extLen = some len ∧ 1 ≤ len ∧ len ≤ cfg.extMax)) ∧
+      b.extraHashOk = true := by
+  rw [extension_accept_iff]
+  have hm : (cfg.forParentEpoch pe).mmrActive = false := by
+    show decide (cfg.rfc0044Epoch ≤ pe) = false
+    simp; omega
+  have hx : (cfg.forParentEpoch pe).extMax = cfg.extMax := rfl
+  rw [hm, hx]
+  simp
+
+/-- **From the activation epoch on** (`rfc0044 epoch ≤ parent epoch`) the extension verifier accepts
+iff the block has exactly one extension field of 32 ..= 96 bytes whose first 32 bytes are the chain
+root of the parent chain, and the header's `extra_hash` commits to the uncles and the extension. -/
+theorem extension_accept_after_activation_iff (cfg : Cfg) (pe : Nat) (b : Blk) (h : cfg.rfc0044Epoch ≤ pe) :
+    extensionCheck (cfg.forParentEpoch pe) b = none ↔
+      (b.extraFields = 1 ∧ ∃ len, b.extLen = some len ∧ 1 ≤ len ∧ len ≤ cfg.extMax ∧ cfg.extMinRoot ≤ len ∧ b.rootOk = true) ∧
+      b.extraHashOk = true := by
+  rw [extension_accept_iff]
+  have hm : (cfg.forParentEpoch pe).mmrActive = true := by
+    show decide (cfg.rfc0044Epoch ≤ pe) = true
+    simp; omega
+  have hx : (cfg.forParentEpoch pe).extMax = cfg.extMax := rfl
+  have hr : (cfg.forParentEpoch pe).extMinRoot = cfg.extMinRoot := rfl
+  rw [hm, hx, hr]
+  simp
+
+/-- **The header commits to the uncles and the extension at every epoch, for every activation
+epoch**: no arm of the hardfork switch lets a block through whose `extra_hash` is not the one
+derived from its body (the class of the seeded change `r5m1`: an early return in the
+"no extension, not yet active" arm). -/
+theorem extra_hash_checked_at_every_epoch (cfg : Cfg) (pe : Nat) (b : Blk)
+    (h : extensionCheck (cfg.forParentEpoch pe) b = none) : b.extraHashOk = true :=
+  ((extension_accept_iff _ b).mp h).2
+
+/-- a block without extension field: refused with `NoBlockExtension` from the activation epoch on,
+judged by its `extra_hash` alone before -/
+theorem no_extension_verdict (cfg : Cfg) (pe : Nat) (b : Blk) (h0 : b.extraFields = 0) :
+    extensionCheck (cfg.forParentEpoch pe) b =
+      if cfg.rfc0044Epoch ≤ pe then some .noExtension
+      else if b.extraHashOk then none else some .invalidExtraHash := by
+  unfold extensionCheck
+  have hm : (cfg.forParentEpoch pe).mmrActive = decide (cfg.rfc0044Epoch ≤ pe) := rfl
+  rw [h0, hm]
+  by_cases h : cfg.rfc0044Epoch ≤ pe
+  · simp [h]
+  · simp [h]
+    cases b.extraHashOk <;> simp
+
+/-- the verdict of the extension verifier depends on the parent's epoch only through the side of
+the activation boundary it lies on -/
+theorem extension_verdict_same_side (cfg : Cfg) (pe pe' : Nat) (b : Blk)
+    (h : (cfg.rfc0044Epoch ≤ pe) ↔ (cfg.rfc0044Epoch ≤ pe')) :
+    extensionCheck (cfg.forParentEpoch pe) b = extensionCheck (cfg.forParentEpoch pe') b := by
+  have : cfg.forParentEpoch pe = cfg.forParentEpoch pe' := by
+    unfold Cfg.forParentEpoch Cfg.rfc0044Active
+    congr 1
+    exact decide_eq_decide.mpr h
+  rw [this]
+
+/-- what the contextual stage hands to `BlockExtensionVerifier`: an accepted block passed it under
+the activation verdict of ITS OWN parent's epoch -/
+theorem contextual_accept_extension (cfg : Cfg) (cx : Cx) (b : Blk) (h : contextualCheck cfg cx b = none) :
+    extensionCheck (cfg.forParentEpoch cx.parentEpochNumber) b = none := by
+  have hr := (contextual_iff_rules cfg cx b).mp h
+  rw [extensionCheck_eq, firstFail_none_iff]
+  intro r hr'
+  apply hr
+  unfold contextualRules
+  simp only [List.mem_append]
+  exact Or.inl (Or.inr hr')
+
+/-- **the staged acceptance function equals the conjunction of the rules, for every activation
+epoch and every parent epoch** — `accept_iff_rules` read with the activation epoch and the parent's
+epoch explicit; in particular an accepted block satisfies the explicit extension rule list of its
+side of the boundary -/
+theorem accept_iff_rules_every_activation_epoch (cfg : Cfg) (e pe : Nat) (hcx : HeaderCx) (cx : Cx) (b : Blk) :
+    let cfg' := { cfg with rfc0044Epoch := e }
+    let cx' := { cx with parentEpochNumber := pe }
+    (accept cfg' hcx cx' b = none ↔ ∀ r ∈ allRules cfg' hcx cx' b, r.2 = true) ∧
+    (accept cfg' hcx cx' b = none → ∀ r ∈ extensionRulesAt cfg' pe b, r.2 = true) := by
+  intro cfg' cx'
+  refine ⟨accept_iff_rules cfg' hcx cx' b, fun h => ?_⟩
+  have hc : contextualCheck cfg' cx' b = none := by
+    unfold accept at h
+    cases hh : headerCheck cfg' hcx b with
+    | some e => simp [hh] at h
+    | none =>
+      cases hn : nonContextualCheck cfg' b with
+      | some e => simp [hh, hn] at h
+      | none => simpa [hh, hn] using h
+  have := contextual_accept_extension cfg' cx' b hc
+  rw [extension_check_every_activation_epoch, firstFail_none_iff] at this
+  exact this
+
+/-- non-vacuity and the boundary pairs the harness drives, on the test-net activation epoch: a
+parent in the last epoch before activation (no extension accepted, wrong `extra_hash` refused, a
+31-byte extension and a wrong chain root accepted, 97 bytes refused) and a parent in the activation
+epoch (no extension, 31 bytes, wrong root refused; 32 bytes with the root accepted) -/
+example :
+    let cfg : Cfg := { rfc0044Epoch := rfc0044EpochOf .testnet }
+    let e := rfc0044EpochOf .testnet
+    extensionCheck (cfg.forParentEpoch (e - 1)) { extraFields := 0 } = none ∧
+    extensionCheck (cfg.forParentEpoch (e - 1)) { extraFields := 0, extraHashOk := false } = some .invalidExtraHash ∧
+    extensionCheck (cfg.forParentEpoch (e - 1)) { extLen := some 31, rootOk := false } = none ∧
+    extensionCheck (cfg.forParentEpoch (e - 1)) { extLen := some 97 } = some .extensionTooLong ∧
+    extensionCheck (cfg.forParentEpoch (e - 1)) { extLen := some 0 } = some .emptyExtension ∧
+    extensionCheck (cfg.forParentEpoch e) { extraFields := 0 } = some .noExtension ∧
+    extensionCheck (cfg.forParentEpoch e) { extLen := some 31 } = some .invalidExtension ∧
+    extensionCheck (cfg.forParentEpoch e) { extLen := some 32, rootOk := false } = some .invalidChainRoot ∧
+    extensionCheck (cfg.forParentEpoch e) { extLen := some 32 } = none ∧
+    extensionCheck (cfg.forParentEpoch e) { extLen := some 32, extraHashOk := false } = some .invalidExtraHash := by
+  decide
+
+/-- **Along every main chain, after any submission history, each block satisfies the extension rule
+of the side of the activation boundary its PARENT's epoch lies on, and its header commits to its
+uncles and extension on both sides** (no assumption that the delivered roots are right: only
+`OneBody`). The contexts before, at and after the boundary are all covered: `p` ranges over every
+parent on the chain. -/
+theorem main_chain_extension_rule_by_parent_epoch (cfg : Cfg) (g : Blk) (hg0 : g.number = 0)
+    (ops : List (Nat × Blk)) (hob : OneBody (g :: ops.map (·.2))) :
+    let s := run cfg (St.init g) ops
+    ∀ x ∈ mainChain s, x.number ≠ 0 →
+      ∃ p, findBlk s.stored x.parent = some p ∧ p ∈ mainChain s ∧
+        x.extraHashOk = true ∧
+        (p.epoch.number < cfg.rfc0044Epoch →
+          x.extraFields = 0 ∨ (x.extraFields = 1 ∧ ∃ len, x.extLen = some len ∧ 1 ≤ len ∧ len ≤ cfg.extMax)) ∧
+        (cfg.rfc0044Epoch ≤ p.epoch.number →
+          x.extraFields = 1 ∧ ∃ len, x.extLen = some len ∧ 1 ≤ len ∧ len ≤ cfg.extMax ∧ cfg.extMinRoot ≤ len ∧ x.rootOk = true) := by
+  intro s x hx h0
+  obtain ⟨p, hp, hpm, _, _, hc⟩ := main_chain_blocks_passed_all_stages_partial cfg g hg0 ops hob x hx h0
+  have he := contextual_accept_extension cfg (cxOf s.stored p) x hc
+  have hpe : (cxOf s.stored p).parentEpochNumber = p.epoch.number := rfl
+  rw [hpe] at he
+  refine ⟨p, hp, hpm, extra_hash_checked_at_every_epoch cfg _ x he, fun hlt => ?_, fun hge => ?_⟩
+  · exact ((extension_accept_before_activation_iff cfg _ x hlt).mp he).1
+  · exact ((extension_accept_after_activation_iff cfg _ x hge).mp he).1
+
+/-- non-vacuity: a chain that crosses the activation boundary (activation epoch 6; epochs of 2
+blocks starting at epoch 5): block 1 (parent epoch 5) has no extension, block 2 (parent epoch 5,
+own epoch 6) has none either, block 3 (parent epoch 6) must carry the chain root — and does; the
+same block without extension is refused there -/
+example :
+    let cfg : Cfg := { medianCount := 3, rfc0044Epoch := 6 }
+    let g : Blk := { id := 0, number := 0, ts := 100, nCellbase := 0, epoch := ⟨5, 0, 2⟩ }
+    let b1 : Blk := { mk 1 0 1 101 with epoch := ⟨5, 1, 2⟩, expEpoch := ⟨5, 1, 2⟩, extraFields := 0, extLen := none }
+    let b2 : Blk := { mk 2 1 2 102 with epoch := ⟨6, 0, 2⟩, expEpoch := ⟨6, 0, 2⟩, extraFields := 0, extLen := none }
+    let b3 : Blk := { mk 3 2 3 103 with epoch := ⟨6, 1, 2⟩, expEpoch := ⟨6, 1, 2⟩ }
+    let b3' : Blk := { b3 with id := 4, extraFields := 0, extLen := none }
+    let b2' : Blk := { b2 with id := 5, extraHashOk := false }
+    let ops : List (Nat × Blk) := [(200, b1), (200, b2'), (200, b2), (200, b3'), (200, b3)]
+    (mainChain (run cfg (St.init g) ops)).map (·.id) = [3, 2, 1, 0] ∧
+    (submit cfg (run cfg (St.init g) [(200, b1)]) 200 b2').2 = .rejected .invalidExtraHash ∧
+    (submit cfg (run cfg (St.init g) [(200, b1), (200, b2)]) 200 b3').2 = .rejected .noExtension := by
+  decide
+
+
+/-- the seeded variant `r5m1` (NOT in /repo): the "no extension field" arm returns as soon as it has
+looked at the activation flag, so the `extra_hash` comparison below the `match` is skipped for
+extension-less blocks -/
+def extensionCheckEarlyReturn (cfg : Cfg) (b : Blk) : Option Err :=
+  match b.extraFields with
+  | 0 => if cfg.mmrActive then some .noExtension else none
+  | _ => extensionCheck cfg b
+
+/-- **the variant differs from the code exactly on the inputs the harness now generates**: it agrees
+with `BlockExtensionVerifier` from the activation epoch on (so no context with rfc0044 active from
+epoch 0 can tell them apart), and before activation it lets through precisely the extension-less
+blocks whose header does not commit to their uncles -/
+theorem early_return_variant_differs_iff (cfg : Cfg) (pe : Nat) (b : Blk) :
+    extensionCheckEarlyReturn (cfg.forParentEpoch pe) b ≠ extensionCheck (cfg.forParentEpoch pe) b ↔
+      pe < cfg.rfc0044Epoch ∧ b.extraFields = 0 ∧ b.extraHashOk = false := by
+  have hm : (cfg.forParentEpoch pe).mmrActive = decide (cfg.rfc0044Epoch ≤ pe) := rfl
+  unfold extensionCheckEarlyReturn
+  rcases h : b.extraFields with _ | n
+  · unfold extensionCheck
+    rw [h, hm]
+    by_cases ha : cfg.rfc0044Epoch ≤ pe
+    · simp [ha]; omega
+    · simp [ha]
+      cases b.extraHashOk <;> simp <;> omega
+  · simp
+
+/-- witness: one epoch below the test-net activation epoch the variant accepts a header that commits
+to nothing, the code refuses it -/
+theorem early_return_variant_witness :
+    let cfg : Cfg := { rfc0044Epoch := rfc0044EpochOf .testnet }
+    let pe := rfc0044EpochOf .testnet - 1
+    let b : Blk := { extraFields := 0, extLen := none, extraHashOk := false }
+    extensionCheckEarlyReturn (cfg.forParentEpoch pe) b = none ∧
+    extensionCheck (cfg.forParentEpoch pe) b = some .invalidExtraHash := by
+  decide
+
+
 end CkbVerif.C03
